@@ -208,7 +208,13 @@ def build_oracle(timeout=1200):
     srcs = [COQ / f for f in coq_files() if not f.startswith(('Proofs/', 'Properties/'))] + \
            sorted((COQ / 'Extract' / 'parts').glob('*.part')) + [ROOT / 'ocaml' / 'oracle.ml', ROOT / 'ocaml' / 'ocommon.ml'] + plugins
     stamp = d / 'stamp'
-    h = _hash_files(srcs)
+    # the extraction reads compiled .vo files: bring them up to date first (same lock as the caller), and key the stamp on the
+    # *compiled* files as well as on the sources, so that an oracle extracted from a stale .vo can never be taken for current
+    okm, logm = coq_make(model_targets())
+    if not okm:
+        return False, 'model does not build:\n' + logm[-3000:]
+    vos = sorted(p for sub in ('Lib', 'Gen', 'Spec', 'Model') for p in (COQ / sub).glob('*.vo'))
+    h = _hash_files(srcs + vos)
     if stamp.exists() and stamp.read_text() == h and (d / 'oracle').exists():
         return True, 'oracle up to date'
     imports, names = extract_parts()
